@@ -101,6 +101,29 @@ def cte_names(query):
     return out
 
 
+VERSION_STATEMENTS = [
+    "select * from int1.t1 where a in (select c from proj.pred.3 where b = 1) and b in (select c from proj.pred where b = 2)",
+    "select * from int1.t1 where a in (select c from proj.pred where b = 1) and b in (select c from proj.pred.3 where b = 2)",
+    "select * from int1.t1 as t join proj.pred.3 as m join proj.pred as m2", "select * from int1.t1 as t join proj.pred as m join proj.pred.3 as m2",
+    "select * from proj.pred.3 where a = 1 union select * from proj.pred where a = 1",
+    "select * from proj.pred where a = 1 union select * from proj.pred.3 where a = 1",
+    "select * from int1.t1 as t join proj.pred.3 as m union select * from int2.t2 as t join proj.pred as m",
+    "select * from int1.t1 as t join proj.pred.3 as m where t.a in (select c from proj.pred.4 where b = 1) and t.b in (select c from proj.pred where b = 1)",
+]
+
+
+def all_steps(steps):
+    from mindsdb_sql.planner.steps import PlanStep
+    for s in steps:
+        yield s
+        for attr in ('steps', 'step'):
+            v = getattr(s, attr, None)
+            if isinstance(v, PlanStep):
+                v = [v]
+            if isinstance(v, list):
+                yield from all_steps(v)
+
+
 def run(tier, seed, replay=None):
     R = Result(PROP, tier, seed, level='proof')
     R.cov['checker_cmd'] = 'make -C /verif/coq; coqc Gen/C10_unit_*.v Gen/C10_plans_*.v'
@@ -273,7 +296,7 @@ def run(tier, seed, replay=None):
         rp = json.loads(open(replay).read())
         inputs = [(rp['sql'], rp.get('catalog', 'names'))] if 'sql' in rp else []
     else:
-        inputs += [(sq, cn) for sq in plangen.EDGE_STATEMENTS for cn, _ in cats]
+        inputs += [(sq, cn) for sq in plangen.EDGE_STATEMENTS + VERSION_STATEMENTS for cn, _ in cats]
         for _ in range(n):
             sql, meta = plangen.gen_statement(rng, feats)
             inputs.append((sql, rng.choice(cats)[0]))
@@ -289,6 +312,27 @@ def run(tier, seed, replay=None):
         try:
             q0 = parse_sql(sql, 'mindsdb')
             orig_tables = [list(t.parts) for t in tables_of(q0)]
+        except Exception:
+            pass
+        # every model reference becomes an apply step for the name as written: the same model may be named with and without a
+        # version suffix in one statement
+        try:
+            pl2 = QueryPlanner(**copy.deepcopy(catd[cname]))
+            projs = [p_.lower() for p_ in pl2.projects]
+            strip = lambda parts: [x.lower() for x in (parts[1:] if len(parts) > 1 and parts[0].lower() in projs else parts)]
+            want_models = []
+            for t in tables_of(q0):
+                try:
+                    if pl2.get_predictor(Identifier(parts=list(t.parts))):
+                        want_models.append(strip(list(t.parts)))
+                except Exception:
+                    pass
+            got_models = [strip(list(s_.predictor.parts)) for s_ in all_steps(plan.steps)
+                          if type(s_).__name__ in ('ApplyPredictorStep', 'ApplyPredictorRowStep', 'ApplyTimeseriesPredictorStep')]
+            stats['model_references'] = stats.get('model_references', 0) + len(want_models)
+            if sorted(want_models) != sorted(got_models) and len(R.violations) < 6:
+                R.violation({'sql': sql, 'catalog': cname, 'models_as_written': want_models, 'models_applied': got_models,
+                             'what': 'the models applied by the plan (name and version suffix) are not the model references of the statement'})
         except Exception:
             pass
         for st in plan.steps:
